@@ -118,10 +118,12 @@ Proof. exact batcher_split_concat. Qed.
 (** The checker evaluated on recorded wire histories is sound: an accepted frame sequence is the
     frames of an interleaving at packet granularity of prefixes of the per-emitter sequences. *)
 Theorem C02_checker_sound :
-  forall fuel (progs : list (list (spacket bytes))) (w : list (frame bytes)) order rem,
-    check_wire bytes_eqb fuel progs w = Some (order, rem) ->
+  forall (data : Type) (deqb : data -> data -> bool),
+    (forall a b, deqb a b = true -> a = b) ->
+  forall fuel (progs : list (list (spacket data))) (w : list (frame data)) order rem,
+    check_wire deqb fuel progs w = Some (order, rem) ->
     exists ps, pops progs order = Some (ps, rem) /\ w = flat_map frames_of ps.
-Proof. exact check_wire_bytes_sound. Qed.
+Proof. exact (@check_wire_sound). Qed.
 
 (** Non-vacuity of the wire theorems: two emitters, a 2-attachment packet and a plain one, polling
     server side, with a control packet sent in between; the wire carries whole packets. *)
